@@ -77,7 +77,8 @@ SMALL = {
     "str": ["a", "nan", " "],
     # epoch day 0, a leap day, a pre-epoch day
     "date": ["1970-01-01", "2020-02-29", "1969-12-31"],
-    "datetime": ["1970-01-01T00:00:00", "2020-02-29T23:59:59.999999", "1969-12-31T23:59:59"],
+    # ... and an instant outside the range of nanosecond timestamps (1677..2262), which pandas and Arrow default to
+    "datetime": ["1970-01-01T00:00:00", "2020-02-29T23:59:59.999999", "1969-12-31T23:59:59", "1500-06-01T12:00:00.000001"],
     "datetime_s": ["1970-01-01T00:00:00", "2020-02-29T23:59:59", "1969-12-31T23:59:59"],
     "datetime_ms": ["1970-01-01T00:00:00", "2020-02-29T23:59:59.999", "1969-12-31T23:59:59"],
     "datetime_ns": ["1970-01-01T00:00:00", "2020-02-29T23:59:59.999999", "1969-12-31T23:59:59"],
@@ -88,7 +89,7 @@ WIDE = {
     "float": ["0.0", "1.5", "1.0", "inf", "-inf", "-0.0", "1e-300"],
     "str": ["a", "nan", " ", V.LONG_A, "日本", "None", 'q"r', "l1\nl2", "b\\s"],
     "date": ["1970-01-01", "2020-02-29", "1969-12-31", "0001-01-01", "9999-12-31"],
-    "datetime": SMALL["datetime"] + ["2000-01-01T12:00:00", "2262-04-11T23:47:16.854775"],
+    "datetime": SMALL["datetime"] + ["2000-01-01T12:00:00", "2262-04-11T23:47:16.854775", "2500-01-01T00:00:00"],
     "datetime_s": SMALL["datetime_s"] + ["2000-01-01T12:00:00", "1677-09-21T00:12:44"],
     "datetime_ms": SMALL["datetime_ms"] + ["2000-01-01T12:00:00"],
     "datetime_ns": SMALL["datetime_ns"] + ["2000-01-01T12:00:00"],
